@@ -1,0 +1,12 @@
+//go:build !verif
+
+// Package verifhook provides build-tag guarded observation points used by
+// the external verification harness. With the "verif" build tag off every
+// call compiles to an empty function.
+package verifhook
+
+// At is a no-op without the verif build tag.
+func At(string, ...string) {}
+
+// Enabled reports whether hooks are compiled in.
+const Enabled = false
